@@ -444,11 +444,12 @@ class Instr:
 
         def le_wrap(dbf, comps, phases, conds, models, phase_records, composition_sets=None):
             given = composition_sets is not None
+            in_phases = [cs.phase_record.phase_name for cs in composition_sets] if given else []
             r, sets = orig_le(dbf, comps, phases, conds, models, phase_records, composition_sets=composition_sets)
             if inst.on:
                 ge = conds.get(v.GE, None)
                 inst.log.append(('L', tuple(phases), given, None if ge is None else float(ge), float(conds[v.T]),
-                                 not bool(np.any(np.isnan(r.chemical_potentials))), [cs.phase_record.phase_name for cs in sets]))
+                                 not bool(np.any(np.isnan(r.chemical_potentials))), [cs.phase_record.phase_name for cs in sets], in_phases))
             return r, sets
 
         def wks_wrap(*a, **k):
@@ -479,12 +480,25 @@ def mk_therm(kind, method='tangent', dens=None):
         th = BinaryThermodynamics(ALZR_TDB, ['AL', 'ZR'], ['FCC_A1', 'AL3ZR'], drivingForceMethod=method)
         th.setDFSamplingDensity(dens or 2000); th.setEQSamplingDensity(500)
         th.setDiffusivity(lambda T: 0.0768 * np.exp(-242000 / (8.314 * T)), 'FCC_A1')
+    elif kind == 'A':     # Al-Mg-Si: five precipitate phases (kawin/tests/test_precipitation.py)
+        from kawin.tests.datasets import ALMGSI_DB
+        from kawin.thermo import MulticomponentThermodynamics
+        th = MulticomponentThermodynamics(ALMGSI_DB, ['AL', 'MG', 'SI'], ['FCC_A1', 'MGSI_B_P', 'MG5SI6_B_DP', 'B_PRIME_L', 'U1_PHASE', 'U2_PHASE'], drivingForceMethod=method)
+        th.setDFSamplingDensity(dens or 2000); th.setEQSamplingDensity(500)
+    elif kind == 'F':     # Fe-Cr-Ni: two phases that both carry mobility data (kawin/tests/test_diffusion.py)
+        from kawin.tests.datasets import FECRNI_DB
+        from kawin.thermo import GeneralThermodynamics
+        th = GeneralThermodynamics(FECRNI_DB, ['FE', 'CR', 'NI'], ['FCC_A1', 'BCC_A2'], drivingForceMethod=method)
+        th.setDFSamplingDensity(dens or 2000)
     else:
         from kawin.tests.datasets import NICRAL_TDB
         from kawin.thermo import MulticomponentThermodynamics
         th = MulticomponentThermodynamics(NICRAL_TDB, ['NI', 'AL', 'CR'], ['FCC_A1', 'FCC_L12'], drivingForceMethod=method)
         th.setDFSamplingDensity(dens or 2000); th.setEQSamplingDensity(500)
     return th
+
+
+OBJ_NAME = {'B': 'Al-Zr binary', 'M': 'Ni-Al-Cr ternary', 'A': 'Al-Mg-Si ternary (5 precipitate phases)', 'F': 'Fe-Cr-Ni (FCC_A1 + BCC_A2, both with mobilities)'}
 
 
 def wrap_singles(th, marks, inst):
@@ -537,11 +551,63 @@ M_X1 = [[0.05, 0.05], [0.01, 0.01], [0.03, 0.08]]
 M_T = [1073.0, 1073.15, 1023.0, 1100.0, 1050.0, 1123.0]
 
 
+A_X = [[0.0072, 0.0057], [0.006, 0.006], [0.008, 0.004], [0.005, 0.007]]
+A_T = [448.15, 523.15, 473.15, 498.15]
+A_P = ['MGSI_B_P', 'MG5SI6_B_DP', 'B_PRIME_L', 'U1_PHASE', 'U2_PHASE']
+F_X = [[0.25, 0.05], [0.3, 0.1], [0.2, 0.08], [0.28, 0.03]]
+F_T = [1273.15, 1373.15, 1173.15, 1323.15]
+F_P = ['FCC_A1', 'BCC_A2']
+POOLS = {'B': (B_X, B_T), 'M': (M_X2, M_T), 'A': (A_X, A_T), 'F': (F_X, F_T)}
+
+
 def gen_queries(rng, kind, n):
-    """public calls; each a dict with name + args"""
+    """public calls; each a dict with name + args; `ph` = phase= of the diffusivity getters, `pp` = precPhase= of the
+    driving-force / interfacial-composition / curvature getters (None = the default phase)"""
     qs = []
-    Ts = B_T if kind == 'B' else M_T
-    Xs = B_X if kind == 'B' else M_X2
+    Xs, Ts = POOLS[kind]
+    if kind in ('A', 'F'):
+        curT = rng.choice(Ts); curX = rng.choice(Xs)
+        for _ in range(n):
+            r = rng.random()
+            if r < 0.3:
+                pass
+            elif r < 0.65:
+                curX = rng.choice(Xs)
+            else:
+                curT = rng.choice(Ts)
+            rm = rng.random() < 0.3
+            arr = rng.random() < 0.2
+            if kind == 'F':
+                name = rng.choice(['interdiff', 'interdiff', 'tracer', 'tracer', 'df'])
+            else:
+                name = rng.choice(['df', 'df', 'df', 'ic', 'curv', 'growth', 'interdiff', 'tracer'])
+            if name in ('interdiff', 'tracer'):
+                ph = rng.choice(F_P + [None]) if kind == 'F' else None
+                if arr:
+                    m = rng.randint(2, 3)
+                    qs.append(dict(name=name, x=[rng.choice(Xs) for _ in range(m)], T=[rng.choice(Ts) for _ in range(m)], rm=rm, arr=True, ph=ph))
+                else:
+                    qs.append(dict(name=name, x=curX, T=curT, rm=rm, arr=False, ph=ph))
+            else:
+                pp = rng.choice(A_P + [None]) if kind == 'A' else None
+                if name == 'df':
+                    if arr:
+                        m = rng.randint(2, 3)
+                        qs.append(dict(name='df', x=[rng.choice(Xs) for _ in range(m)], T=[rng.choice(Ts) for _ in range(m)], rm=rm, arr=True, pp=pp))
+                    else:
+                        qs.append(dict(name='df', x=curX, T=curT, rm=rm, arr=False, pp=pp))
+                elif name == 'ic':
+                    g = [0.0, rng.choice([100.0, 500.0])] if arr else rng.choice([0.0, 150.0])
+                    qs.append(dict(name='ic', x=curX, T=curT, g=g, arr=arr, pp=pp))
+                elif name == 'curv':
+                    qs.append(dict(name='curv', x=curX, T=curT, rm=rm, dir=None, pp=pp))
+                else:
+                    k = rng.randint(1, 2)
+                    qs.append(dict(name='growth', x=curX, T=curT, rm=rm, dG=rng.choice([2000.0, 6000.0]),
+                                   R=[rng.uniform(1e-9, 5e-9) for _ in range(k)], g=[rng.uniform(50.0, 400.0) for _ in range(k)], pp=pp))
+            if rng.random() < 0.04:
+                qs.append(dict(name='clear'))
+        return qs
     curT = rng.choice(Ts); curX = rng.choice(Xs)
     for _ in range(n):
         r = rng.random()
@@ -600,11 +666,11 @@ def call_public(th, q):
         x = _arr(q['x']); T = _arr(q['T']) if isinstance(q['T'], list) else float(q['T'])
         x0 = x.copy(); T0 = copy.deepcopy(T)
         if n == 'df':
-            r = th.getDrivingForce(x, T, removeCache=q['rm'])
+            r = th.getDrivingForce(x, T, precPhase=q.get('pp'), removeCache=q['rm'])
         elif n == 'interdiff':
-            r = th.getInterdiffusivity(x, T, removeCache=q['rm'])
+            r = th.getInterdiffusivity(x, T, removeCache=q['rm'], phase=q.get('ph'))
         else:
-            r = th.getTracerDiffusivity(x, T, removeCache=q['rm'])
+            r = th.getTracerDiffusivity(x, T, removeCache=q['rm'], phase=q.get('ph'))
         mod = not (np.array_equal(x, x0) and _same(T, T0))
         return r, mod
     if n == 'ic':
@@ -613,7 +679,7 @@ def call_public(th, q):
         g0 = copy.deepcopy(g); T0 = copy.deepcopy(T)
         if 'x' in q:
             x = _arr(q['x']); x0 = x.copy()
-            r = th.getInterfacialComposition(x, T, g)
+            r = th.getInterfacialComposition(x, T, g, precPhase=q.get('pp'))
             mod = not (np.array_equal(x, x0) and _same(g, g0) and _same(T, T0))
         else:
             r = th.getInterfacialComposition(T, g)
@@ -622,12 +688,12 @@ def call_public(th, q):
     if n == 'curv':
         x = _arr(q['x']); x0 = x.copy()
         d = None if q['dir'] is None else _arr(q['dir']); d0 = copy.deepcopy(d)
-        r = th.curvatureFactor(x, float(q['T']), removeCache=q['rm'], searchDir=d)
+        r = th.curvatureFactor(x, float(q['T']), precPhase=q.get('pp'), removeCache=q['rm'], searchDir=d)
         mod = not (np.array_equal(x, x0) and (d is None or np.array_equal(d, d0)))
         return (None if r is None else tuple(r)), mod
     if n == 'growth':
         x = _arr(q['x']); R = _arr(q['R']); g = _arr(q['g']); x0, R0, g0 = x.copy(), R.copy(), g.copy()
-        r = th.getGrowthAndInterfacialComposition(x, float(q['T']), q['dG'], R, g, removeCache=q['rm'])
+        r = th.getGrowthAndInterfacialComposition(x, float(q['T']), q['dG'], R, g, precPhase=q.get('pp'), removeCache=q['rm'])
         mod = not (np.array_equal(x, x0) and np.array_equal(R, R0) and np.array_equal(g, g0))
         return (None if r is None else tuple(r)), mod
     if n == 'clear':
@@ -717,6 +783,8 @@ def single_points(q):
 def situation(prev, q):
     if prev is None:
         return 'first'
+    if prev.get('ph') != q.get('ph') or prev.get('pp') != q.get('pp'):
+        return 'phase-switch'
     if prev.get('T') != q.get('T') and not isinstance(q.get('T'), list):
         return 'T-jump'
     if prev.get('x') == q.get('x') and prev.get('name') == q.get('name'):
@@ -730,17 +798,27 @@ def run_sequence(ctx, res, kind, method, qs, inst, use_model, seq_id):
     W = mk_therm(kind, method); R = mk_therm(kind, method)
     marks = []
     counts = wrap_singles(W, marks, inst)
-    prec = W.phases[1]; ph0 = W.phases[0]
+    ph0 = W.phases[0]
+    nph = len(W.phases)
+    pidx = {name: i for i, name in enumerate(W.phases)}
     model_q, real_q, tab = [], [], []
+    MISSING = object()
+    CACHES = ['_diffusivity_cache', '_compset_cache_df', '_points_cache', '_compset_cache_curvature', '_curvature_outputs']
+
+    def snapshot():
+        return {c: dict(getattr(W, c)) for c in CACHES if hasattr(W, c)}
     qid = 0
     prev = None
     dens = 2000
     after_switch = False
     for qi, q in enumerate(qs):
-        desc = {'part': 'thermo', 'object': 'Al-Zr binary' if kind == 'B' else 'Ni-Al-Cr ternary', 'method': method,
+        desc = {'part': 'thermo', 'object': OBJ_NAME[kind], 'kind': kind, 'method': method,
                 'sequence': qs[:qi + 1], 'failing_query': q}
         n = q['name']
         res.count('thermo:' + n)
+        if q.get('ph') not in (None, ph0) or q.get('pp') not in (None, W.phases[1] if nph > 1 else None):
+            res.count('thermo:non-default-phase-argument')
+        snap0 = snapshot()
         marks.clear(); inst.log.clear(); inst.on = True
         sc0 = counts['sample_calls']
         try:
@@ -821,13 +899,38 @@ def run_sequence(ctx, res, kind, method, qs, inst, use_model, seq_id):
                 what = 'value of %s on the warmed object differs from the value on a cleared object (rtol %g)' % (n, RTOL)
             res.violate(key, what, desc, flat(vW)[:8], flat(vR)[:8])
         res.count('purity-compared')
+        # ---------------- caches are keyed by phase: a query for phase p writes no entry of a phase q != p ...
+        own_diff = (q.get('ph') or ph0) if n in ('interdiff', 'tracer') else None
+        own_prec = (q.get('pp') or (W.phases[1] if nph > 1 else None)) if n in ('df', 'ic', 'curv', 'growth') else None
+        snap1 = snapshot()
+        for c in snap0:
+            own = own_diff if c == '_diffusivity_cache' else own_prec
+            for key in set(snap0[c]) | set(snap1[c]):
+                if key != own and snap0[c].get(key, MISSING) is not snap1[c].get(key, MISSING):
+                    res.violate('cache-entry-of-other-phase-written:%s' % c,
+                                '%s for phase %s changed the entry %s[%r], which belongs to another phase' % (n, own, c, key), desc, key, own)
+        # ... and reads none: the composition sets handed to the solver belong to the phases of that very equilibrium
+        for e in events:
+            if e[0] == 'L' and e[2] and not set(e[7]) <= set(e[1]):
+                res.violate('cached-sets-of-other-phase-reused:%s' % n,
+                            '%s: local equilibrium on phases %s was started from cached composition sets of %s' % (n, list(e[1]), e[7]), desc, e[7], list(e[1]))
         # ---------------- C. trace: events per single point
         if n == 'ic' and kind == 'B':
             continue      # stateless, own pycalphad workspace: nothing to replay
         for (mname, a, k, i0, i1, r) in mk:
             ev = events[i0:i1]
+            # the phase this single-point call is about
+            if mname == 'df':
+                prec = a[2]
+            elif mname in ('interdiff', 'tracer'):
+                prec = None
+                dph = (a[3] if len(a) > 3 else k.get('phase')) or ph0
+            elif mname == 'ic':
+                prec = a[3]
+            else:
+                prec = (a[2] if len(a) > 2 else k.get('precPhase')) or W.phases[1]
             toks = []; k2 = 0; step = 0; used = 0; sampled = 0
-            seen0 = seen1 = False; degen_idx = None
+            seen1 = False; degen_idx = None
             for e in ev:
                 if e[0] == 'solve':
                     if e[2]:
@@ -835,35 +938,31 @@ def run_sequence(ctx, res, kind, method, qs, inst, use_model, seq_id):
                                     'a cached composition set reached Solver.solve with state variables %s, current conditions %s' % (e[2][0], e[3]), desc, e[2], e[3])
                 elif e[0] == 'L':
                     phs = e[1]
-                    if len(phs) == 1 and phs[0] == prec and e[3] is None:
-                        kindc = 1
-                    elif len(phs) == 1:
-                        kindc = 0
-                    else:
-                        kindc = 2
+                    kindc = 2 if len(phs) > 1 else (1 if e[3] is None else 0)
                     if kindc == 0:
-                        toks.append('0%s0' % ('g' if e[2] else 'n'))
+                        toks.append('0%s0p%d' % ('g' if e[2] else 'n', pidx.get(phs[0], 99)))
                         if seen1:
                             degen_idx = True
                         tab.append((0, qid, 0, e[5], True, True, False, False))
                     elif kindc == 1:
-                        toks.append('1%s0' % ('g' if e[2] else 'n'))
+                        toks.append('1%s0p%d' % ('g' if e[2] else 'n', pidx.get(phs[0], 99)))
                         seen1 = True
                         tab.append([1, qid, 0, e[5], True, True, False, False])
                     else:
-                        toks.append('2%s%d' % ('g' if e[2] else 'n', 1 if e[3] == GOFF else 0))
-                        hasM = ph0 in e[6]; hasP = prec in e[6]
-                        gap = e[6].count(ph0) > 1 or e[6].count(prec) > 1
+                        toks.append('2%s%dp%d' % ('g' if e[2] else 'n', 1 if e[3] == GOFF else 0, pidx.get(phs[1], 99)))
+                        hasM = ph0 in e[6]; hasP = phs[1] in e[6]
+                        gap = e[6].count(ph0) > 1 or e[6].count(phs[1]) > 1
                         if k2 == 0:
                             tab.append((2, qid, 0, e[5], hasM, hasP, gap, False))
                         k2 += 1
                 elif e[0] == 'G':
-                    hasM = ph0 in e[5]; hasP = prec in e[5]
-                    gap = e[5].count(ph0) > 1 or e[5].count(prec) > 1
+                    gp = e[1][1] if len(e[1]) > 1 else e[1][0]
+                    hasM = ph0 in e[5]; hasP = gp in e[5]
+                    gap = e[5].count(ph0) > 1 or e[5].count(gp) > 1
                     if mname == 'ic':
-                        toks.append('3n1')
+                        toks.append('3n1p%d' % pidx.get(gp, 99))
                     else:
-                        toks.append('2n%d' % (1 if e[2] == GOFF else 0))
+                        toks.append('2n%dp%d' % (1 if e[2] == GOFF else 0, pidx.get(gp, 99)))
                         if k2 > 0:
                             step += 1
                         tab.append((2, qid, step, e[4], hasM, hasP, gap, False))
@@ -884,38 +983,42 @@ def run_sequence(ctx, res, kind, method, qs, inst, use_model, seq_id):
                 rnone = 1 if r is None else 0
             else:
                 rnone = 0
-            pc = W._points_cache.get(prec, SampledPointsCache())
-            occ = '%s %s %s %s %s' % ('T' if W._compset_cache_df.get(prec) is not None else 'F', 'T' if W._matrix_cs is not None else 'F',
-                                      '-' if pc.samples is None else str(int(f2b(pc.temperature))),
-                                      'T' if W._diffusivity_cache.get(ph0) is not None else 'F',
-                                      'T' if getattr(W, '_compset_cache_curvature', {}).get(prec) is not None else 'F')
+
+            def bits(d):
+                return ''.join('T' if d.get(name) is not None else 'F' for name in W.phases)
+            pcs = [W._points_cache.get(name, SampledPointsCache()) for name in W.phases]
+            occ = '%s %s %s %s %s' % (bits(W._compset_cache_df), 'T' if W._matrix_cs is not None else 'F',
+                                      ','.join('-' if pc.samples is None else str(int(f2b(pc.temperature))) for pc in pcs),
+                                      bits(W._diffusivity_cache), bits(getattr(W, '_compset_cache_curvature', {})))
             # the occupancy is only observable after the LAST single point of a public call
-            last = (mname, a, k, i0, i1, r) is mk[-1] or mk[-1][3] == i0
+            last = mk[-1][3] == i0
             real_q.append((' '.join(toks) + ' ; %d %d %d ; ' % (used, sampled, rnone)) + (occ if last else '?'))
             # model query line
             rm = None
             if mname == 'df':
-                xq, Tq, pq, rm = a[0], a[1], a[2], a[3]
+                rm = a[3]
                 mi = {'tangent': 0, 'sampling': 1, 'approximate': 2, 'curvature': 3}[method]
-                model_q.append('F %d %d %s 1 %s' % (mi, qid, f2b(Tq), 'T' if rm else 'F'))
+                model_q.append('F %d %d %s %d %s' % (mi, qid, f2b(a[1]), pidx[prec], 'T' if rm else 'F'))
             elif mname in ('interdiff', 'tracer'):
                 rm = a[2]
-                model_q.append('D %d %d %s 0 %s' % (0 if mname == 'interdiff' else 1, qid, f2b(a[1]), 'T' if rm else 'F'))
+                model_q.append('D %d %d %s %d %s' % (0 if mname == 'interdiff' else 1, qid, f2b(a[1]), pidx[dph], 'T' if rm else 'F'))
             elif mname == 'curv':
                 rm = a[3] if len(a) > 3 else k.get('removeCache', False)
                 sd = a[4] if len(a) > 4 else k.get('searchDir', None)
-                model_q.append('K %d %s 1 %s %s' % (qid, f2b(float(np.squeeze(a[1]))), 'T' if rm else 'F', 'T' if sd is not None else 'F'))
+                model_q.append('K %d %s %d %s %s' % (qid, f2b(float(np.squeeze(a[1]))), pidx[prec], 'T' if rm else 'F', 'T' if sd is not None else 'F'))
             else:
-                model_q.append('I %d %s %s 1' % (qid, f2b(a[1]), f2b(a[2])))
+                model_q.append('I %d %s %s %d' % (qid, f2b(a[1]), f2b(a[2]), pidx[prec]))
             # direct oracle: removeCache leaves the touched caches empty
             if rm and last:
-                if mname in ('interdiff', 'tracer') and W._diffusivity_cache.get(ph0) is not None:
-                    res.violate('removeCache-leaves-cache:diffusivity', 'removeCache=True left composition sets in _diffusivity_cache', desc)
-                if mname == 'df' and not rnone and (W._compset_cache_df.get(prec) is not None or W._matrix_cs is not None or pc.samples is not None):
-                    res.violate('removeCache-leaves-cache:driving-force', 'removeCache=True left a driving-force cache populated', desc,
-                                [W._compset_cache_df.get(prec) is not None, W._matrix_cs is not None, pc.samples is not None])
+                if mname in ('interdiff', 'tracer') and W._diffusivity_cache.get(dph) is not None:
+                    res.violate('removeCache-leaves-cache:diffusivity', 'removeCache=True left composition sets in _diffusivity_cache[%s]' % dph, desc)
+                if mname == 'df':
+                    pc = W._points_cache.get(prec, SampledPointsCache())
+                    if not rnone and (W._compset_cache_df.get(prec) is not None or W._matrix_cs is not None or pc.samples is not None):
+                        res.violate('removeCache-leaves-cache:driving-force', 'removeCache=True left a driving-force cache of %s populated' % prec, desc,
+                                    [W._compset_cache_df.get(prec) is not None, W._matrix_cs is not None, pc.samples is not None])
                 if mname == 'curv' and W._compset_cache_curvature.get(prec) is not None:
-                    res.violate('removeCache-leaves-cache:curvature', 'removeCache=True left _compset_cache_curvature populated', desc)
+                    res.violate('removeCache-leaves-cache:curvature', 'removeCache=True left _compset_cache_curvature[%s] populated' % prec, desc)
             qid += 1
     # a brand-new object must agree with the warmed one on the last point queries
     fresh_checked = 0
@@ -936,7 +1039,7 @@ def run_sequence(ctx, res, kind, method, qs, inst, use_model, seq_id):
             evW = list(inst.log)
             ok, worst = vals_close(vW, vN, q['name'])
             if not ok:
-                d1 = {'part': 'thermo', 'object': 'Al-Zr binary' if kind == 'B' else 'Ni-Al-Cr ternary', 'method': method, 'sequence': qs, 'failing_query': q}
+                d1 = {'part': 'thermo', 'object': OBJ_NAME[kind], 'kind': kind, 'method': method, 'sequence': qs, 'failing_query': q}
                 if phase_set_mismatch(evW, evN):
                     res.violate('cached-equilibrium-phase-set-differs-from-global',
                                 '%s: cached two-phase equilibrium found %s, the global equilibrium of a brand-new object %s' % (q['name'], k2_phase_sets(evW), k2_phase_sets(evN)),
@@ -954,10 +1057,10 @@ def run_sequence(ctx, res, kind, method, qs, inst, use_model, seq_id):
             if t[:3] in seen:
                 continue
             seen.add(t[:3]); tab2.append(t)
-        line = 'cs.run T 2000 %d %s %d %s' % (len(tab2), ' '.join('%d %d %d %s %s %s %s %s' % (t[0], t[1], t[2], *['T' if b else 'F' for b in t[3:]]) for t in tab2),
+        line = 'cs.run T 2000 %d %d %s %d %s' % (nph, len(tab2), ' '.join('%d %d %d %s %s %s %s %s' % (t[0], t[1], t[2], *['T' if b else 'F' for b in t[3:]]) for t in tab2),
                                               len(model_q), ' '.join(model_q))
         ans = vlib.run_driver(PROP, [line])[0]
-        d0 = {'part': 'thermo', 'object': kind, 'method': method, 'sequence': qs}
+        d0 = {'part': 'thermo', 'object': OBJ_NAME[kind], 'kind': kind, 'method': method, 'sequence': qs}
         if not ans.startswith('ok '):
             res.disagree('cs.run model error', d0, 'ok', ans[:200]); return
         mq = ans[3:].split(' / ')
@@ -984,9 +1087,10 @@ def rng_switch(ctx):
 def corr_thermo(ctx, res, use_model=True):
     inst = Instr()
     try:
-        plan = [('B', 'tangent', ctx.n(30, 60)), ('M', 'tangent', ctx.n(30, 60))]
+        plan = [('B', 'tangent', ctx.n(30, 60)), ('M', 'tangent', ctx.n(30, 60)), ('F', 'tangent', ctx.n(25, 60)), ('A', 'tangent', ctx.n(25, 60))]
         extra = [('B', 'approximate', ctx.n(6, 30)), ('M', 'approximate', ctx.n(6, 30)), ('B', 'sampling', ctx.n(4, 20)),
-                 ('M', 'curvature', ctx.n(4, 20)), ('M', 'sampling', ctx.n(0, 20)), ('B', 'curvature', ctx.n(0, 20))]
+                 ('M', 'curvature', ctx.n(4, 20)), ('M', 'sampling', ctx.n(0, 20)), ('B', 'curvature', ctx.n(0, 20)),
+                 ('A', 'approximate', ctx.n(6, 30)), ('A', 'sampling', ctx.n(4, 20))]
         reps = ctx.n(1, 8)
         sid = 0
         # scripted sequences: every run exercises the classes behind the recorded defects / finding
@@ -1021,19 +1125,35 @@ def corr_thermo(ctx, res, use_model=True):
         run_sequence(ctx, res, 'M', 'sampling', scripted_SM, inst, use_model, 's5'); sid += 1
         run_sequence(ctx, res, 'M', 'tangent', scripted_switch, inst, use_model, 's0'); sid += 1
         run_sequence(ctx, res, 'M', 'tangent', scripted_M, inst, use_model, 's1'); sid += 1
+        # multi-phase objects, non-default phase= / precPhase= arguments interleaved
+        fx, fT = F_X[0], F_T[0]
+        scripted_F = [dict(name='interdiff', x=fx, T=fT, rm=False, arr=False, ph='BCC_A2'), dict(name='interdiff', x=fx, T=fT, rm=True, arr=False, ph=None),
+                      dict(name='interdiff', x=fx, T=fT, rm=False, arr=False, ph='FCC_A1'), dict(name='tracer', x=fx, T=F_T[1], rm=False, arr=False, ph='BCC_A2'),
+                      dict(name='tracer', x=fx, T=fT, rm=False, arr=False, ph=None), dict(name='interdiff', x=F_X[1], T=fT, rm=True, arr=False, ph='BCC_A2'),
+                      dict(name='interdiff', x=[fx, F_X[1]], T=[fT, F_T[1]], rm=False, arr=True, ph='BCC_A2'), dict(name='tracer', x=fx, T=fT, rm=True, arr=False, ph='FCC_A1'),
+                      dict(name='df', x=fx, T=fT, rm=False, arr=False, pp=None), dict(name='interdiff', x=fx, T=fT, rm=False, arr=False, ph=None)]
+        ax, aT = A_X[0], A_T[0]
+        scripted_A5 = [dict(name='df', x=ax, T=aT, rm=False, arr=False, pp='MG5SI6_B_DP'), dict(name='df', x=ax, T=aT, rm=False, arr=False, pp=None),
+                       dict(name='df', x=ax, T=A_T[1], rm=False, arr=False, pp='U1_PHASE'), dict(name='df', x=ax, T=aT, rm=True, arr=False, pp='MG5SI6_B_DP'),
+                       dict(name='curv', x=ax, T=aT, rm=False, dir=None, pp='B_PRIME_L'), dict(name='curv', x=ax, T=aT, rm=False, dir=None, pp=None),
+                       dict(name='curv', x=ax, T=A_T[1], rm=True, dir=None, pp='B_PRIME_L'), dict(name='ic', x=ax, T=aT, g=[0.0, 500.0], arr=True, pp='U2_PHASE'),
+                       dict(name='growth', x=ax, T=aT, rm=False, dG=6000.0, R=[1e-9, 2e-9], g=[300.0, 150.0], pp='MGSI_B_P'),
+                       dict(name='df', x=[ax, A_X[1]], T=[aT, A_T[1]], rm=False, arr=True, pp='U2_PHASE'), dict(name='df', x=ax, T=aT, rm=False, arr=False, pp='U1_PHASE')]
+        run_sequence(ctx, res, 'F', 'tangent', scripted_F, inst, use_model, 's6'); sid += 1
+        run_sequence(ctx, res, 'A', 'tangent', scripted_A5, inst, use_model, 's7'); sid += 1
         run_sequence(ctx, res, 'B', 'tangent', scripted_B, inst, use_model, 's2'); sid += 1
         for rep in range(reps):
             for kind, method, n in plan + extra:
                 if n == 0:
                     continue
                 qs = gen_queries(ctx.rng, kind, n)
-                if method == 'tangent' and rng_switch(ctx):
+                if method == 'tangent' and kind in ('B', 'M') and rng_switch(ctx):
                     k = ctx.rng.randint(1, max(1, len(qs) - 1))
                     m2 = ctx.rng.choice(['approximate', 'sampling', 'curvature'])
-                    qs = qs[:k] + [dict(name='method', m=m2), dict(name='df', x=(B_X if kind == 'B' else M_X2)[0], T=(B_T if kind == 'B' else M_T)[0], rm=False, arr=False),
+                    qs = qs[:k] + [dict(name='method', m=m2), dict(name='df', x=POOLS[kind][0][0], T=POOLS[kind][1][0], rm=False, arr=False),
                                    dict(name='method', m='tangent')] + qs[k:]
                 if method != 'tangent':
-                    qs = [q for q in qs if q['name'] in ('df', 'clear', 'dens', 'interdiff')] or [dict(name='df', x=(B_X if kind == 'B' else M_X2)[0], T=(B_T if kind == 'B' else M_T)[0], rm=False, arr=False)]
+                    qs = [q for q in qs if q['name'] in ('df', 'clear', 'dens', 'interdiff')] or [dict(name='df', x=POOLS[kind][0][0], T=POOLS[kind][1][0], rm=False, arr=False)]
                 run_sequence(ctx, res, kind, method, qs, inst, use_model, sid)
                 sid += 1
     finally:
@@ -1087,7 +1207,7 @@ def replay(ctx, entry):
 
 def replay_thermo(ctx, c, key):
     """replays the recorded public-call sequence on new objects; oracle only"""
-    kind = 'B' if str(c.get('object', '')).startswith(('Al-Zr', 'B')) else 'M'
+    kind = c.get('kind') or ('B' if str(c.get('object', '')).startswith(('Al-Zr', 'B')) else 'M')
     res = Result()
     inst = Instr()
     try:
